@@ -262,9 +262,11 @@ Proof. vm_compute. reflexivity. Qed.
     KL = -0.3465... = (1/2) ln (1/2) *)
 Example C10_refuted_on_floats :
   js_dist (A:=FloatA) 10 ([3%Z], [1; 2]) ([2%Z], [1; 2]) [1.5; 1.5; 1.5] [1.5; 1.5] = NaN /\
-  (exists v, kl_dist (A:=FloatA) 2 ([1%Z; 1%Z], [0; 0.25; 0.5]) ([1%Z], [-0.5; 0.5]) [0; 0.5] [0] = Fin v /\
-             PrimFloat.ltb v (-0.34) = true).
-Proof. split; [vm_compute; reflexivity|]. eexists. split; vm_compute; reflexivity. Qed.
+  match kl_dist (A:=FloatA) 2 ([1%Z; 1%Z], [0; 0.25; 0.5]) ([1%Z], [-0.5; 0.5]) [0; 0.5] [0] with
+  | Fin v => PrimFloat.ltb v (-0.34)
+  | _ => false
+  end = true.
+Proof. split; vm_compute; reflexivity. Qed.
 
 (** the mass hypotheses of [C10_js_partial] are satisfiable: two probability vectors *)
 Example C10_nonvacuous_js : exists v : R,
